@@ -293,6 +293,42 @@ impl Shape {
         }
     }
 
+    /// C05 clause 1 on large stores: every hit of the whole-corpus store must share a gram with the query.
+    fn corpus_case(&self, cx: &mut Cx, lang: &'static str) {
+        crate::props::finds::with_corpus_store(lang, |st, recs| {
+            for _ in 0..12 {
+                let t = cx.rng.pick(recs).1.clone();
+                let q = match cx.rng.below(5) {
+                    0 => gen::hostile(&mut cx.rng, 5),
+                    1 => (0..cx.rng.range(9, 30)).map(|_| gen::any_word(&mut cx.rng, lang)).collect::<Vec<_>>().join(" "),
+                    _ => gen::related_query(&mut cx.rng, lang, &st.store.lang, &t),
+                };
+                let tq = st.tok_query(&q);
+                if tq.words.is_empty() {
+                    continue;
+                }
+                let qgrams = oracle::grams_of(&tq);
+                cx.ctx(format!("C05 corpus lang={} q={:?}", lang, q));
+                let hits = st.search(&q);
+                cx.count("corpus-store searches");
+                if tq.words.len() > 8 {
+                    cx.count("corpus-store searches with more than 8 query words");
+                }
+                for hit in &hits {
+                    cx.eval();
+                    let rec = recs.iter().find(|r| r.0 == hit.0);
+                    let shares = rec.map(|r| !oracle::grams_of(&st.tok_record(&r.1)).is_disjoint(&qgrams)).unwrap_or(false);
+                    if !shares {
+                        cx.fail("unrelated-hit", json!({"lang": lang, "store": "whole e-commerce corpus, limit = N", "query": q, "hit": hit}));
+                    }
+                }
+                if hits.len() > 1 {
+                    cx.key(hparts(&[lang, &q, "corpus"]));
+                }
+            }
+        });
+    }
+
     /// Joined-record matches with typos, cut short: one query word (no separator typed) covering two
     /// title words, the second of which starts with an accented / expanding letter of the language.
     fn joined_case(&self, cx: &mut Cx, lang: &'static str) {
@@ -491,14 +527,14 @@ impl Prop for Shape {
     fn streams(&self) -> Vec<Stream> {
         match self.0 {
             Which::Titles => vec![Stream::new("stores", 16000, 800000), Stream::new("bridge", 3200, 160000)],
-            Which::Related => vec![Stream::new("stores", 16000, 800000), Stream::new("exact", 168, 8400), Stream::new("joined", 8000, 400000)],
+            Which::Related => vec![Stream::new("stores", 16000, 800000), Stream::new("exact", 168, 8400), Stream::new("joined", 8000, 400000), Stream::new("corpus", 64, 1600)],
             Which::Markup => vec![Stream::new("stores", 20000, 1000000), Stream::new("joined", 16000, 800000)],
         }
     }
     fn floors(&self) -> Vec<(&'static str, u64, u64)> {
         match self.0 {
             Which::Titles => vec![("hit with span", 2000, 20000), ("hit whose title needed composition", 50, 500), ("hit with expanding letter", 50, 500), ("hit whose title has NUL", 30, 300), ("hit whose title contains marker text", 50, 500), ("bridge searches with hits", 200, 2000), ("empty-query searches", 100, 1000)],
-            Which::Related => vec![("hit with fuzzy span", 200, 2000), ("hit with joined-record spans", 20, 200), ("exact-prefix case", 2000, 20000), ("exact-prefix ending inside an expanded letter", 5, 50)],
+            Which::Related => vec![("hit with fuzzy span", 200, 2000), ("hit with joined-record spans", 20, 200), ("exact-prefix case", 2000, 20000), ("exact-prefix ending inside an expanded letter", 5, 50), ("corpus-store searches", 300, 8000), ("corpus-store searches with more than 8 query words", 50, 1200)],
             Which::Markup => vec![("hit with 2+ spans", 500, 5000), ("joined-record split (more spans than query words)", 20, 200), ("hit of separator-only query", 200, 2000), ("span in title with padding", 30, 300), ("joined-with-typos hits with 2+ spans and typos", 2000, 100000)],
         }
     }
@@ -509,6 +545,7 @@ impl Prop for Shape {
             "exact" => self.exact_prefix_case(cx, lang),
             "bridge" => self.bridge_case(cx, lang),
             "joined" => self.joined_case(cx, lang),
+            "corpus" => self.corpus_case(cx, if idx % 2 == 0 { "en" } else { "none" }),
             _ => {}
         }
     }
